@@ -426,7 +426,7 @@ def temporal_order_rule(F, rep):
     inl = set(helpers.values()) - {helpers["compare"]}
 
     def run(fn, args, assign):
-        ev = Evaluator(F, call_hook=make_hook(assign), inline=inl)
+        ev = Evaluator(F, call_hook=make_hook(assign), inline=inl, ints=True)
         outs = ev.run_fn(fn, args)
         vals = {repr(v) for _, v in outs}
         return outs[0][1] if len(vals) == 1 else ("multi", sorted(vals))
@@ -491,7 +491,7 @@ def temporal_order_rule(F, rep):
             continue
         bad = []
         for o in OUT:
-            ev = Evaluator(F, call_hook=make_hook2(o), inline=inl | wrappers)
+            ev = Evaluator(F, call_hook=make_hook2(o), inline=inl | wrappers, ints=True)
             try:
                 outs = ev.run_fn(name, [sym("a"), sym("b")])
                 vals = {repr(v) for _, v in outs}
